@@ -615,3 +615,277 @@ def install(I):
     I.methods.update(METHODS)
     I.intrinsics.update(INTRINSICS)
     I.globals_init.update(GLOBALS)
+
+
+# ----------------------------------------------------------------------------- more of the standard library
+# (added so that a behaviour-preserving refactor that reaches for another common helper is still decided, not INCONCLUSIVE)
+def _concrete_strs(*xs):
+    return all(isinstance(x, str) for x in xs)
+
+
+@contract('bytes.EqualFold')
+def bytes_equalfold(I, args, ins):
+    import z3
+    a, b = I.bytes_term(args[0]), I.bytes_term(args[1])
+    r = I.fresh_bool('equalfold')
+    I.add(z3.Implies(a == b, r))  # equal inputs are fold-equal; unequal inputs may or may not be
+    return r
+
+
+@contract('strings.EqualFold')
+def strings_equalfold(I, args, ins):
+    import z3
+    a, b = args
+    if _concrete_strs(a, b):
+        return a.lower() == b.lower()
+    r = I.fresh_bool('equalfold')
+    I.add(z3.Implies(I.str_term(a) == I.str_term(b), r))
+    return r
+
+
+@contract('strings.HasSuffix')
+def strings_hassuffix(I, args, ins):
+    s, p = args
+    if _concrete_strs(s, p):
+        return s.endswith(p)
+    raise Inconclusive('strings.HasSuffix symbolic')
+
+
+@contract('strings.Contains')
+def strings_contains(I, args, ins):
+    s, p = args
+    if _concrete_strs(s, p):
+        return p in s
+    raise Inconclusive('strings.Contains symbolic')
+
+
+@contract('strings.ToLower')
+def strings_tolower(I, args, ins):
+    if _concrete_strs(args[0]):
+        return args[0].lower()
+    raise Inconclusive('strings.ToLower symbolic')
+
+
+@contract('strings.ToUpper')
+def strings_toupper(I, args, ins):
+    if _concrete_strs(args[0]):
+        return args[0].upper()
+    raise Inconclusive('strings.ToUpper symbolic')
+
+
+@contract('strings.TrimSpace')
+def strings_trimspace(I, args, ins):
+    if _concrete_strs(args[0]):
+        return args[0].strip(' \t\n\r\v\f')
+    raise Inconclusive('strings.TrimSpace symbolic')
+
+
+@contract('strings.TrimSuffix')
+def strings_trimsuffix(I, args, ins):
+    s, p = args
+    if _concrete_strs(s, p):
+        return s[:-len(p)] if p and s.endswith(p) else s
+    raise Inconclusive('strings.TrimSuffix symbolic')
+
+
+@contract('bytes.HasPrefix')
+def bytes_hasprefix(I, args, ins):
+    s, p = args
+    ls, lp = I.len_of(s), I.len_of(p)
+    if isinstance(ls, int) and isinstance(lp, int):
+        if lp > ls:
+            return False
+        if lp == 0:
+            return True
+        if isinstance(s, SliceVal) and isinstance(p, SliceVal):
+            return zand(*[I.equal(x, y) for x, y in zip(s.elems()[:lp], p.elems())])
+    raise Inconclusive('bytes.HasPrefix on opaque bytes')
+
+
+@contract('errors.As')
+def errors_as(I, args, ins):
+    raise Inconclusive('errors.As')
+
+
+@contract('errors.Join')
+def errors_join(I, args, ins):
+    errs = [e for e in (args[0].elems() if args[0] is not None else []) if e is not None]
+    if not errs:
+        return None
+    return mk_error(I, 'joined errors', wrapped=errs[0])
+
+
+# sync/atomic on plain words and the typed wrappers: sequentially consistent loads and stores of the cell
+def _atomic_cell(p):
+    return p
+
+
+def _atomic_load(I, args, ins):
+    return args[0].load()
+
+
+def _atomic_store(I, args, ins):
+    args[0].store(args[1])
+    return None
+
+
+def _atomic_add(I, args, ins):
+    p, d = args
+    t = I.prog.types[ins['t']] if ins and 't' in ins else None
+    v = p.load()
+    if isinstance(v, int) and isinstance(d, int) and t is not None:
+        bits, signed = t.intinfo()
+        from ..interp import norm
+        nv = norm(v + d, bits, signed)
+    else:
+        nv = v + d
+    p.store(nv)
+    return nv
+
+
+def _atomic_swap(I, args, ins):
+    p, n = args
+    v = p.load()
+    p.store(n)
+    return v
+
+
+def _atomic_cas(I, args, ins):
+    p, old, new = args
+    c = I.equal(p.load(), old)
+    if c is True or (c is not False and I.fork_bool(c, 'atomic.CAS')):
+        p.store(new)
+        return True
+    return False
+
+
+for _t in ('Int32', 'Int64', 'Uint32', 'Uint64', 'Uintptr', 'Pointer'):
+    CONTRACTS['sync/atomic.Load' + _t] = _atomic_load
+    CONTRACTS['sync/atomic.Store' + _t] = _atomic_store
+    CONTRACTS['sync/atomic.Swap' + _t] = _atomic_swap
+    CONTRACTS['sync/atomic.CompareAndSwap' + _t] = _atomic_cas
+    if _t != 'Pointer':
+        CONTRACTS['sync/atomic.Add' + _t] = _atomic_add
+
+
+def _typed_atomic(field_of):
+    def load(I, args, ins):
+        return field_of(args[0]).load()
+
+    def store(I, args, ins):
+        field_of(args[0]).store(args[1])
+        return None
+
+    def swap(I, args, ins):
+        c = field_of(args[0])
+        v = c.load()
+        c.store(args[1])
+        return v
+
+    def cas(I, args, ins):
+        c = field_of(args[0])
+        e = I.equal(c.load(), args[1])
+        if e is True or (e is not False and I.fork_bool(e, 'atomic.CAS')):
+            c.store(args[2])
+            return True
+        return False
+
+    def add(I, args, ins):
+        c = field_of(args[0])
+        nv = c.load() + args[1]
+        c.store(nv)
+        return nv
+    return load, store, swap, cas, add
+
+
+def _side_cell(I, p):
+    """typed atomics (atomic.Bool, atomic.Int32, ...) keep their value in a side table keyed by the object"""
+    tab = I.path.ghost.setdefault('atomics', {})
+    key = (id(p.c), p.i)
+
+    class Cell:
+        def load(self):
+            return tab.get(key, self.zero)
+
+        def store(self, v):
+            tab[key] = v
+    c = Cell()
+    return c
+
+
+def _install_typed_atomics():
+    for tname, zero in (('Bool', False), ('Int32', 0), ('Int64', 0), ('Uint32', 0), ('Uint64', 0)):
+        def mk(zero):
+            def cell(I, p):
+                c = _side_cell(I, p)
+                c.zero = zero
+                return c
+            return cell
+        cellf = mk(zero)
+
+        def wrap(kind, cellf=cellf):
+            def f(I, args, ins):
+                c = cellf(I, args[0])
+                if kind == 'Load':
+                    return c.load()
+                if kind == 'Store':
+                    c.store(args[1])
+                    return None
+                if kind == 'Swap':
+                    v = c.load()
+                    c.store(args[1])
+                    return v
+                if kind == 'CompareAndSwap':
+                    e = I.equal(c.load(), args[1])
+                    if e is True or (e is not False and I.fork_bool(e, 'atomic.CAS')):
+                        c.store(args[2])
+                        return True
+                    return False
+                if kind == 'Add':
+                    nv = c.load() + args[1]
+                    c.store(nv)
+                    return nv
+            return f
+        for kind in ('Load', 'Store', 'Swap', 'CompareAndSwap') + (('Add',) if tname != 'Bool' else ()):
+            CONTRACTS['(*sync/atomic.%s).%s' % (tname, kind)] = wrap(kind)
+
+
+_install_typed_atomics()
+
+
+@contract('sort.Slice', 'sort.SliceStable')
+def sort_slice(I, args, ins):
+    """insertion sort driven by the caller's less(i, j) on the real slice (comparisons that the path condition does not
+    decide fork)"""
+    sl, less = args
+    if sl is None:
+        return None
+    v = sl.v if isinstance(sl, Iface) else sl
+    n = I.len_of(v)
+    if not isinstance(n, int):
+        raise Inconclusive('sort.Slice of symbolic length')
+    els = v.arr
+    off = v.off
+    for i in range(1, n):
+        j = i
+        while j > 0:
+            r = I.call_value(less, [j, j - 1], ins)
+            if not (r is True or (r is not False and I.fork_bool(r, 'sort.less'))):
+                break
+            els[off + j], els[off + j - 1] = els[off + j - 1], els[off + j]
+            j -= 1
+    return None
+
+
+@contract('sort.Strings')
+def sort_strings(I, args, ins):
+    v = args[0]
+    if v is None:
+        return None
+    n = I.len_of(v)
+    xs = [v.arr[v.off + i] for i in range(n)]
+    if not _concrete_strs(*xs):
+        raise Inconclusive('sort.Strings symbolic')
+    for i, x in enumerate(sorted(xs)):
+        v.arr[v.off + i] = x
+    return None
